@@ -1482,3 +1482,17 @@ Proof.
   repeat split; try (vm_compute; congruence); try (vm_compute; lia).
   repeat constructor; cbn; lra.
 Qed.
+
+(* combined statement for Properties/C12.v *)
+Lemma epan_cdf_ends (h x : Q) : 0 < h ->
+  (x <= - h -> epan_cdf h x == 0) /\ (h <= x -> epan_cdf h x == 1).
+Proof.
+  intro Hh. split; intro H; [rewrite epan_cdf_left by lra; reflexivity | apply epan_cdf_right; assumption].
+Qed.
+(* the exact polynomial pieces: K is a cubic with K' = k on the open support *)
+Lemma epan_pieces (h x : Q) : 0 < h -> - h < x -> x < h ->
+  epan_pdf h x == (3 # 4) / h * (1 - x * x / (h * h)) /\
+  epan_cdf h x == (1 # 4) * (2 + 3 * (x / h) - (x / h) * (x / h) * (x / h)).
+Proof.
+  intros Hh A B. split; [apply epan_pdf_inside; assumption | apply epan_cdf_mid; lra].
+Qed.
